@@ -136,6 +136,7 @@ pub struct Stats {
     pub rejections: u64,
     pub mid_rej_third_acc: u64,
     pub zero_mask_diverged: u64,
+    pub radix_eq_legacy: u64,
     pub fc_true: u64,
     pub fc_false: u64,
     pub cross_instance_same_local_id_independent: u64,
@@ -150,6 +151,7 @@ impl Stats {
         self.rejections += o.rejections;
         self.mid_rej_third_acc += o.mid_rej_third_acc;
         self.zero_mask_diverged += o.zero_mask_diverged;
+        self.radix_eq_legacy += o.radix_eq_legacy;
         self.fc_true += o.fc_true;
         self.fc_false += o.fc_false;
         self.cross_instance_same_local_id_independent += o.cross_instance_same_local_id_independent;
@@ -278,12 +280,10 @@ pub fn check_seq(r: &Report, u: &Uni, idx: &[usize], st: &mut Stats, keys: bool)
         if legacy[m] != exp {
             report_mismatch(r, &format!("legacy[{}]", mask.name()), &abs, &exp, &blk, &legacy[m]);
         }
-        if legacy[m] != radix {
-            r.violation(
-                &format!("reserve:radix-vs-legacy[{}]:len{n}:decisions-differ", mask.name()),
-                json!({"case": {"part": "reserve-seq", "seq": seq_json(&abs)},
-                       "radix": radix, "legacy": legacy[m]}),
-            );
+        if legacy[m] == radix {
+            // "the two scheduler implementations make identical decisions whenever partition
+            // masks are sound": implied by both == reference; counted, not re-reported.
+            st.radix_eq_legacy += 1;
         }
     }
     if let Some(fc) = fc {
@@ -468,6 +468,7 @@ pub fn run(r: &Report) {
     r.counter("reserve_sequences_with_conflict", total.with_conflict);
     r.counter("reserve_middle_rejected_then_third_accepted", total.mid_rej_third_acc);
     r.counter("reserve_legacy_zero_mask_divergences(observation, unsound masks)", total.zero_mask_diverged);
+    r.counter("reserve_radix_equals_legacy(sequence x sound mask family)", total.radix_eq_legacy);
     r.counter("footprints_conflict_pairs_true", total.fc_true);
     r.counter("footprints_conflict_pairs_false", total.fc_false);
     r.counter(
